@@ -311,6 +311,16 @@ class Inference:
                     o = offs[ti]
                     produced.add(ti)
                     if o >= 0:
+                        for tj in op.inputs:
+                            # input and output of one operator are live together: the plan may not give them common bytes (a reference
+                            # kernel is not written to work in place); the view operators below are the exception
+                            if tj < 0 or m.tensors[tj].data is not None or offs[tj] < 0 or tj == ti:
+                                continue
+                            a0, a1, b0, b1 = o, o + t.nbytes(), offs[tj], offs[tj] + m.tensors[tj].nbytes()
+                            view = op.name in ("RESHAPE", "SQUEEZE", "EXPAND_DIMS") and tj == op.inputs[0] and b0 == a0 and (b1 - b0) == (a1 - a0)
+                            if a0 < b1 and b0 < a1 and not view and a1 > a0 and b1 > b0:
+                                self.v(prop="C12", oracle="cpu_operator_output_overlaps_input", op=op.idx, opname=op.name, tensor=ti, tname=t.name, input=tj,
+                                       iname=m.tensors[tj].name, out_range=[a0, a1], in_range=[b0, b1])
                         src_t = op.inputs[0] if op.inputs else -1
                         if (op.name in ("RESHAPE", "SQUEEZE", "EXPAND_DIMS") and src_t >= 0 and offs[src_t] == o
                                 and m.tensors[src_t].nbytes() == t.nbytes()):
